@@ -552,9 +552,21 @@ def run_test_case(case, plugs_factory=None, callbacks=None):
 
     def _go():
       try:
-        box['ret'] = test.execute(test_start=start) if start is not None else test.execute()
+        kw = {}
+        if case.get('profile'):
+          # Test.execute(profile_filename=...): every phase thread runs under cProfile
+          import tempfile
+          box['profdir'] = tempfile.mkdtemp(prefix='verif-prof.')
+          kw['profile_filename'] = os.path.join(box['profdir'], 'stats')
+        if start is not None:
+          kw['test_start'] = start
+        box['ret'] = test.execute(**kw)
       except BaseException as e:  # pylint: disable=broad-except
         box['exc'] = e
+      finally:
+        if box.get('profdir'):
+          import shutil
+          shutil.rmtree(box['profdir'], ignore_errors=True)
     runner = threading.Thread(target=_go, name='verif-execute', daemon=True)
     runner.start()
     stuck = any((b or {}).get('td') == 'stuck' for b in (case.get('plugs') or {}).values())
